@@ -97,7 +97,18 @@ def check(prop, tier, seed):
                 relevant = prop in j.serves
             if relevant:
                 jobs.append(j)
-    if not jobs:
+    if os.environ.get('VF_ONLY'):   # development aid only: restrict to some jobs (never set by a registered command)
+        import re as _re
+        jobs = [j for j in jobs if _re.search(os.environ['VF_ONLY'], j.name)]
+    vfcore.RUN_TAG = prop
+    for j in jobs:
+        j.loops = {k: vfcore.select_sections(v, prop) for k, v in j.loops.items()}
+    natives = []
+    for m in mods.values():
+        nc = getattr(getattr(m, 'mod', m), 'native_checks', None)
+        if nc:
+            natives += [n for n in nc(tier) if prop in n['props']]
+    if not jobs and not natives:
         print('no jobs serve property %s' % prop)
         return 2
     groups = {}
@@ -131,6 +142,7 @@ def check(prop, tier, seed):
     trusted = set()
     n_bounded = 0
     unknowns = []
+    native_violation = False
     for j, r in results:
         if r['status'] != 'done':
             undecided.append('job %s: %s' % (j.name, r['reason']))
@@ -180,6 +192,38 @@ def check(prop, tier, seed):
             trusted.add(t)
         for t in r.get('trusted_library_calls', []) or []:
             trusted.add('library call under the default contract (touches only its own opaque object): ' + t.split('(')[0][:120])
+    # ---- bounded native stand-ins (never counted as proof)
+    import subprocess as _sp
+    native_results = []
+    for n in natives:
+        exe = os.path.join(WORK, 'native', n['name'])
+        os.makedirs(os.path.dirname(exe), exist_ok=True)
+        b = _sp.run(['g++', '-std=c++17', '-O2', '-I', vfcore.INCLUDE, os.path.join(VERIF, n['src']), '-o', exe], capture_output=True, text=True)
+        if b.returncode != 0:
+            undecided.append('native check %s does not build: %s' % (n['name'], b.stderr[-400:]))
+            continue
+        try:
+            r_ = _sp.run([exe] + n.get('args', []), capture_output=True, text=True, timeout=1800)
+        except _sp.TimeoutExpired:
+            undecided.append('native check %s timed out' % n['name'])
+            continue
+        out_ = r_.stdout
+        native_results.append({'name': n['name'], 'bound': n['bound'], 'result': [l for l in out_.splitlines() if l.startswith('RESULT')][-1:] , 'exit': r_.returncode})
+        bounded_parts.append({'job': n['name'], 'bound': n['bound']})
+        if r_.returncode != 0:
+            bad = [l for l in out_.splitlines() if l.startswith('UNSOUND')]
+            kfs_ = [k for k in kfs if k.get('status', 'open') == 'open' and k['property'] == prop and k.get('job') == n['name']]
+            if kfs_:
+                for k in kfs_:
+                    print('KNOWN-FINDING: property=%s %s' % (prop, k.get('what')))
+            else:
+                d_ = os.path.join(VERIF, 'replays'); os.makedirs(d_, exist_ok=True)
+                rp = os.path.join(d_, '%s__%s.json' % (prop, n['name']))
+                json.dump({'property': prop, 'job': n['name'], 'bound': n['bound'], 'failing_cases': bad[:20], 'output_tail': out_[-1500:],
+                           'native_replay': {'reproduced': True, 'note': 'the failing cases were produced by running the real code natively'}}, open(rp, 'w'), indent=1)
+                print('VIOLATION property=%s replay=%s obligation=%s (bounded native stand-in) %s' % (prop, rp, n['name'], bad[0] if bad else ''))
+                native_violation = True
+        os.remove(exe)
     # obligations left UNKNOWN by cbmc: undecided, unless the same job already has a violation of this property
     vio_jobs = set(j.name for j, r, ob, tag in violations) | set(j.name for kf, j, ob, tag in known)
     for j, ob in unknowns:
@@ -239,6 +283,8 @@ def check(prop, tier, seed):
             suffix = ' no-failing-input-found'
         print('VIOLATION property=%s replay=%s obligation=%s tag=%s job=%s%s' % (prop, path, ob['name'], tag, j.name, suffix))
         rc = 1
+    if native_violation:
+        rc = 1
     for u in undecided:
         print('UNDECIDED %s' % u)
     if undecided and rc == 0:
@@ -257,7 +303,7 @@ def check(prop, tier, seed):
             'jobs': len(jobs), 'jobs_undecided': len(undecided),
             'solver_runs_reused_from_content_cache': sum(1 for j, r in results if r.get('cached')),
             'samples': samples or [{'note': 'no postcondition obligation attributed'}],
-            'bounded_parts': bounded_parts, 'bounded_obligations_not_counted': n_bounded,
+            'bounded_parts': bounded_parts, 'bounded_obligations_not_counted': n_bounded, 'bounded_native_stand_ins': native_results,
             'known_findings_hit': sorted(set(k[0].get('id') for k in known)),
             'obligations_failing_as_listed_known_findings': len(known),
             'solver_s_total': round(sum(f['solver_s'] for f in fn_table), 1),
@@ -265,7 +311,7 @@ def check(prop, tier, seed):
         'assumptions': sorted(set(assumptions)),
         'wall_s': round(wall, 1), 'violations': len(violations),
     }
-    evdir = os.path.join(VERIF, 'evidence') if not os.environ.get('VF_REPO') else os.path.join(WORK, 'evidence')   # scratch-copy runs do not touch the committed evidence
+    evdir = os.path.join(VERIF, 'evidence') if not (os.environ.get('VF_REPO') or os.environ.get('VF_ONLY')) else os.path.join(WORK, 'evidence')   # scratch-copy and partial runs do not touch the committed evidence
     os.makedirs(evdir, exist_ok=True)
     json.dump(ev, open(os.path.join(evdir, '%s.json' % prop), 'w'), indent=1)
     print('%s: %d jobs, %d/%d obligations discharged, %d violations, %d known, %d undecided, %.0fs' % (
@@ -287,6 +333,26 @@ def main():
             print('UNDECIDED %s' % ex)
             rc = 2
         sys.exit(rc)
+    if a.cmd == 'replay':
+        # re-decide the one obligation a replay file names, on the current tree: exit 1 + VIOLATION if it still fails
+        rec = json.load(open(a.prop))
+        os.environ['VF_ONLY'] = '^%s$' % re.escape(rec['job'])
+        import io, contextlib
+        buf = io.StringIO()
+        try:
+            with contextlib.redirect_stdout(buf):
+                rc = check(rec['property'], rec.get('tier', 'quick'), seed)
+        except Undecided as ex:
+            print('UNDECIDED %s' % ex)
+            sys.exit(2)
+        hit = [l for l in buf.getvalue().splitlines() if l.startswith('VIOLATION') and ('obligation=%s ' % rec['obligation']) in l + ' ']
+        other = [l for l in buf.getvalue().splitlines() if l.startswith(('VIOLATION', 'UNDECIDED', 'KNOWN-FINDING'))]
+        for l in hit or other:
+            print(l)
+        if rec.get('native_replay'):
+            print('native replay recorded at the time: %s' % str(rec['native_replay'])[:400])
+        print('replay of %s in job %s: %s' % (rec['obligation'], rec['job'], 'still fails' if hit else 'does not fail on the current tree'))
+        sys.exit(1 if hit else (2 if rc == 2 else 0))
     if a.cmd == 'lower':
         mods = load_groups()
         for g, m in mods.items():
